@@ -11,7 +11,7 @@ import asn1crypto.core
 
 from cryptodatahub.common.exception import InvalidValue
 
-from cryptoparser.common.exception import NotEnoughData
+from cryptoparser.common.exception import InvalidType, NotEnoughData
 from cryptoparser.common.parse import ParsableBase
 
 
@@ -170,6 +170,8 @@ class LDAPExtendedRequestStartTLS(LDAPMessageParsableBase):
     @classmethod
     def _parse(cls, parsable):
         asn1_message = cls._parse_asn1(parsable)
+        if asn1_message['protocolOp'].name != 'extendedReq':
+            raise InvalidType()
 
         return LDAPExtendedRequestStartTLS(), len(asn1_message.dump())
 
@@ -191,6 +193,8 @@ class LDAPExtendedResponseStartTLS(LDAPMessageParsableBase):
     @classmethod
     def _parse(cls, parsable):
         asn1_message = cls._parse_asn1(parsable)
+        if asn1_message['protocolOp'].name != 'extendedResp':
+            raise InvalidType()
 
         return LDAPExtendedResponseStartTLS(
             asn1_message['protocolOp'].chosen['resultCode'].native
